@@ -1,7 +1,19 @@
 /-
 C03 - routing trees are loop-free, connected, use only live hardware.
+Property theorems only; the proofs are in RigModel/Lemmas/C03*.lean.
+
+What is proved here is about the model RigModel/Model/C03.lean (tied to the code by the
+correspondence harness):  the decision procedure that is run as oracle on every tree the real
+router returns is exactly the declarative property; a valid tree physically connects the source to
+every sink; A* paths; liveness of the disconnecting copy; hop geometry of the LDF walk.
+NOT proved (validated per case by the oracle): chip-distinctness / connectedness after the repair
+loop (`avoidDeadLinks_valid`, false on the unrepaired code: defect F3), `nerNet_valid` in full,
+`aStar_complete`, absence of the non-`Disconnected` model errors.
 -/
 import RigModel.Model.C03
+import RigModel.Lemmas.C03Tree
+import RigModel.Lemmas.C03AStar
+import RigModel.Lemmas.C03Copy
 set_option linter.unusedSimpArgs false
 set_option linter.unusedVariables false
 
@@ -16,5 +28,44 @@ theorem link_tables :
     (∀ l, l < 6 → vec (opp l) = (-(vec l).1, -(vec l).2)) ∧
     coreRouteBase = 6 := by
   decide
+
+/-- **Decision procedure = property.**  The executable `validTree` (the oracle applied to every tree
+returned by the real `route()`) holds exactly when the declarative `ValidTree` does. -/
+theorem validTree_iff (m : Machine) (src : Chip) (sinks : List Sink) (t : Tree) :
+    validTree m src sinks t = true ↔ ValidTree m src sinks t :=
+  L.validTree_iff m src sinks t
+
+/-- **Connected.**  In a valid tree every sink's chip is physically reachable from the source chip
+over working links between working chips. -/
+theorem validTree_connects (m : Machine) (src : Chip) (sinks : List Sink) (t : Tree)
+    (h : ValidTree m src sinks t) :
+    ∀ s, s ∈ sinks → s.routes ≠ [] → Reach m src s.chip :=
+  L.validTree_connects m src sinks t h
+
+example : ValidTree ⟨2, 2, [], []⟩ (0, 0) [⟨1, (1, 0), 1, 3, 5⟩]
+    (.node (0, 0) [(0, .node (1, 0) [] [(some 9, 1), (some 10, 1)])] []) :=
+  (validTree_iff _ _ _ _).1 (by decide)
+
+/-- **A\* path.**  Whatever `a_star` returns is a chain of working links that starts at a chip of
+`sources`, passes through no other chip of `sources`, and whose last link arrives at `sink`. -/
+theorem aStar_path (m : Machine) (sink hsrc : Chip) (sources : List Chip) (wrap : Bool)
+    (path : List (Nat × Chip)) (hsink : InRange m sink)
+    (h : aStar sink hsrc sources m wrap = .ok path) : pathOk m sources sink path = true :=
+  L.aStar_path m sink hsrc sources wrap path hsink h
+
+/-- a detour around the dead chip (1,0) on a 3x3 machine whose right-hand wrap links are dead -/
+example : (aStar (0, 0) (2, 0) [(2, 0), (2, 1)]
+      ⟨3, 3, [(1, 0)], [((2, 0), 0), ((2, 0), 1), ((2, 1), 0), ((2, 2), 1), ((2, 1), 1)]⟩ false).toOption
+      = some [(3, (2, 1)), (4, (1, 1))]
+    ∧ InRange ⟨3, 3, [(1, 0)], [((2, 0), 0), ((2, 0), 1), ((2, 1), 0), ((2, 2), 1), ((2, 1), 1)]⟩ (0, 0) := by
+  refine ⟨by decide, ?_⟩
+  unfold InRange
+  decide
+
+/-- **Copy keeps only live hardware.**  Every node of the forest built by `copy_and_disconnect_tree`
+is a working chip and every edge it keeps is a working link to the adjacent working chip. -/
+theorem copyAndDisconnect_live (old : Forest) (root : Chip) (m : Machine) (cs : CopyState)
+    (h : copyAndDisconnect old root m = .ok cs) : ForestLive m cs.lookup :=
+  L.copyAndDisconnect_live old root m cs h
 
 end Rig.C03
